@@ -213,3 +213,38 @@ def mutating_short_circuit_closures(prog, fv):
             if what:
                 out.append((bi, meth, ck, what))
     return out
+
+
+def var_def_expr(fv, name, depth=8, at=None):
+    """Rendered definition of a named local with exactly one live definition (else None).  With `at`, several locals may
+    share the name (one per scope): the definition that dominates block `at` most closely is taken."""
+    ls = [l for l, n in fv.local_name.items() if n == name]
+    ds = [d for l in ls for d in fv.defs().get(l, []) if d[0] in fv.live]
+    if at is not None and len(ds) > 1:
+        per_local = {}
+        for l in ls:
+            dl = [d for d in fv.defs().get(l, []) if d[0] in fv.live]
+            if len(dl) == 1 and (dl[0][0] == at or fv.dominates(dl[0][0], at)):
+                per_local[l] = dl[0]
+        ds = list(per_local.values())
+        if len(ds) > 1:
+            # the closest dominating definition: the one every other candidate dominates
+            best = [d for d in ds if all(d is o or fv.dominates(o[0], d[0]) for o in ds)]
+            ds = best[:1]
+    if len(ds) != 1:
+        return None
+    bi, si, st = ds[0]
+    rend = Renderer(fv, depth=depth)
+    return rend.call_expr(st, depth, bi) if si == "t" else rend.rvalue(st["rv"], depth)
+
+
+def deep_calls(fv, e, depth=3, at=None):
+    """Callee names mentioned by `e`, looking through named locals with a single definition (hoisted `let`s)."""
+    out = list(expr_calls(e))
+    if depth <= 0:
+        return out
+    for v in set(expr_vars(e)):
+        d = var_def_expr(fv, v, at=at)
+        if d is not None and not (isinstance(d, tuple) and d and d[0] == "var" and d[1] == v):
+            out.extend(deep_calls(fv, d, depth - 1, at))
+    return out
